@@ -21,6 +21,8 @@ def capacity_jobs(tier, seed, prop="C10"):
         jobs.append(j)
     for j in jobs:
         j["payload"]["cls_prefix"] = "C10"
+    jobs.append(dict(name="%s-lemma-buffer-premise" % prop, kind="pyfunc", timeout=300,
+                     payload=dict(func="vf.pyxlift.lemma_c10:buffer_premise")))
     return jobs
 
 
